@@ -83,7 +83,7 @@ func (g *GCMon) Reset() {
 }
 
 // boxComps are the component types whose pointee is a tracked Box.
-var boxComps = []int{u.IPtr, u.IIfc, u.IMix, u.IR2}
+var boxComps = []int{u.IPtr, u.IIfc, u.IMix, u.IR2, u.IFn}
 
 // liveValues returns the values the model still references through Box-bearing components / resources.
 func liveValues(m *Model) map[int64]bool {
